@@ -20,6 +20,7 @@ from ..util import (
     urlsafe_b64decode,
 )
 from .._keys import Key
+from ..errors import DecodeError
 
 
 def represent_general_json(obj: GeneralJSONEncryption) -> GeneralJSONSerialization:
@@ -63,7 +64,7 @@ def __represent_json_serialization(obj: BaseJSONEncryption):  # type: ignore[no-
 
 
 def extract_general_json(data: GeneralJSONSerialization) -> GeneralJSONEncryption:
-    protected = json_b64decode(data["protected"])
+    protected = __extract_protected(data)
     unprotected = data.get("unprotected")
     base64_segments, bytes_segments, aad = __extract_segments(data)
     obj = GeneralJSONEncryption(protected, None, unprotected, aad)
@@ -78,7 +79,7 @@ def extract_general_json(data: GeneralJSONSerialization) -> GeneralJSONEncryptio
 
 
 def extract_flattened_json(data: FlattenedJSONSerialization) -> FlattenedJSONEncryption:
-    protected = json_b64decode(data["protected"])
+    protected = __extract_protected(data)
     unprotected = data.get("unprotected")
     base64_segments, bytes_segments, aad = __extract_segments(data)
     obj = FlattenedJSONEncryption(protected, None, unprotected, aad)
@@ -90,6 +91,13 @@ def extract_flattened_json(data: FlattenedJSONSerialization) -> FlattenedJSONEnc
         recipient.encrypted_key = urlsafe_b64decode(to_bytes(data["encrypted_key"]))
     obj.recipients.append(recipient)
     return obj
+
+
+def __extract_protected(data: t.Union[GeneralJSONSerialization, FlattenedJSONSerialization]) -> Header:
+    protected = json_b64decode(data["protected"])
+    if not isinstance(protected, dict):
+        raise DecodeError("Invalid header")
+    return protected
 
 
 def __extract_segments(
